@@ -87,9 +87,18 @@ def C(text):
     return ("C", text)
 
 
-def Doc(body=(), name="DOC", meta=None, separator=False, sentinel=None, frontmatter=None, trailing=()):
-    return {"name": name, "sentinel": sentinel, "frontmatter": frontmatter, "meta": list(meta) if meta is not None else None,
-            "separator": separator, "body": list(body), "trailing": list(trailing)}
+HC_SLOTS = ("pre_env", "pre_meta", "meta_inner", "post_meta", "post_end")
+
+
+def Doc(body=(), name="DOC", meta=None, separator=False, sentinel=None, frontmatter=None, trailing=(), hc=None):
+    """hc = whole-line comments in the document HEADER/FOOTER: {"pre_env": [...] before ===NAME===, "pre_meta": [...] between
+    the envelope and META, "meta_inner": [...] between the first and second META field, "post_meta": [...] after the last META
+    field (before --- or the body), "post_end": [...] after ===END===}."""
+    d = {"name": name, "sentinel": sentinel, "frontmatter": frontmatter, "meta": list(meta) if meta is not None else None,
+         "separator": separator, "body": list(body), "trailing": list(trailing)}
+    if hc:
+        d["hc"] = {k: list(v) for k, v in hc.items() if v}
+    return d
 
 
 # ----------------------------------------------------------------------------- content (spelling stripped)
@@ -128,7 +137,8 @@ def dcontent(d):
     fm = d["frontmatter"]
     return {"name": d["name"], "sentinel": d["sentinel"], "frontmatter": fm if (fm is not None and fm.strip()) else None,
             "meta": [(k, vcontent(v)) for k, v in d["meta"]] if d["meta"] else [],
-            "separator": bool(d["separator"]), "body": [ncontent(n) for n in d["body"]], "trailing": list(d["trailing"])}
+            "separator": bool(d["separator"]), "body": [ncontent(n) for n in d["body"]], "trailing": list(d["trailing"]),
+            "hc": {k: list(v) for k, v in (d.get("hc") or {}).items() if v}}
 
 
 # ----------------------------------------------------------------------------- value pool
@@ -357,3 +367,68 @@ def _decorate(node, lead, trail):
     if node[0] == "S":
         return Sec(node[1], node[2], node[4], node[3], lead)
     return node
+
+
+# ----------------------------------------------------------------------------- comment-placement sweep
+
+class _Slots:
+    """names every place a whole-line or trailing comment can stand in a skeleton; `on` selects the occupied ones"""
+
+    def __init__(self, on=()):
+        self.on = set(on)
+        self.seen = []
+
+    def lead(self, name):
+        self.seen.append(name)
+        return (f"c {name}",) if name in self.on else ()
+
+    def trail(self, name):
+        self.seen.append(name)
+        return f"t {name}" if name in self.on else None
+
+    def orphan(self, name):
+        self.seen.append(name)
+        return [C(f"o {name}")] if name in self.on else []
+
+
+def _skeletons():
+    v, w, q, r = S("v"), S("w"), S("q"), S("r")
+    return {
+        "AA": lambda s: [A("K1", v, lead=s.lead("lead:first"), trail=s.trail("trail:K1")), A("K2", w, lead=s.lead("lead:A-after-A"))],
+        "B_A": lambda s: [B("B1", [A("K", v, lead=s.lead("lead:child"), trail=s.trail("trail:child"))] + s.orphan("orphan:B1"), lead=s.lead("lead:first")),
+                          A("Q", q, lead=s.lead("lead:A-after-block"))],
+        "BB_A": lambda s: [B("B1", [B("B2", [A("K", v, lead=s.lead("lead:grandchild"))] + s.orphan("orphan:B2"), lead=s.lead("lead:nested-block")),
+                                    A("R", r, lead=s.lead("lead:A-after-nested-block"))] + s.orphan("orphan:B1")),
+                           A("Q", q, lead=s.lead("lead:A-after-block"))],
+        "BB": lambda s: [B("B1", [B("B2", [A("K", v)] + s.orphan("orphan:B2"))] + s.orphan("orphan:B1")), A("Q", q, lead=s.lead("lead:A-after-2-dedents"))],
+        "S_A": lambda s: [Sec("1", "SEC", [A("K", v, lead=s.lead("lead:child"), trail=s.trail("trail:child"))] + s.orphan("orphan:S1"), lead=s.lead("lead:first")),
+                          A("Q", q, lead=s.lead("lead:A-after-section"))],
+        "S_S": lambda s: [Sec("1", "SEC", [A("K", v)] + s.orphan("orphan:S1")), Sec("2", "TWO", [A("L", w, lead=s.lead("lead:child"))], lead=s.lead("lead:S-after-section"))],
+        "SB_A": lambda s: [Sec("1", "SEC", [B("B1", [A("K", v)] + s.orphan("orphan:B1"), lead=s.lead("lead:block-in-section")),
+                                            A("R", r, lead=s.lead("lead:A-after-block-in-section"))] + s.orphan("orphan:S1")), A("Q", q, lead=s.lead("lead:A-after-section"))],
+        "B_B": lambda s: [B("B1", [A("K", v)] + s.orphan("orphan:B1")), B("B2", [A("L", w, lead=s.lead("lead:child"))], lead=s.lead("lead:B-after-block"))],
+        "A_B": lambda s: [A("K1", v, trail=s.trail("trail:K1")), B("B1", [A("K", v, lead=s.lead("lead:child"))], lead=s.lead("lead:B-after-A"))],
+    }
+
+
+def comment_sweep(max_on: int = 2) -> list[tuple[str, dict]]:
+    """every skeleton x META variant x every set of <= max_on occupied comment places (node leads, trailing comments,
+    orphan comments, document trailing comments and the header/footer places of HC_SLOTS)."""
+    out = []
+    metas = {"nometa": (None, False), "meta_sep": ([("TYPE", S("T")), ("VERSION", S("1.0", "quoted"))], True),
+             "meta_nosep": ([("TYPE", S("T")), ("VERSION", S("1.0", "quoted"))], False)}
+    for sname, build in _skeletons().items():
+        for mname, (meta, sep) in metas.items():
+            probe = _Slots()
+            build(probe)
+            slots = list(probe.seen) + ["doc:trailing", "hc:pre_env", "hc:post_end"]
+            if meta:
+                slots += ["hc:pre_meta", "hc:meta_inner", "hc:post_meta"]
+            for k in range(0, max_on + 1):
+                for on in itertools.combinations(slots, k):
+                    s = _Slots(on)
+                    body = build(s)
+                    hc = {x[3:]: [f"h {x[3:]}"] for x in on if x.startswith("hc:")}
+                    d = Doc(body, meta=meta, separator=sep, trailing=("end note",) if "doc:trailing" in on else (), hc=hc)
+                    out.append((f"CM:{sname}:{mname}:{'+'.join(on) or 'none'}", d))
+    return out
